@@ -1,3 +1,4 @@
+#[allow(unused_imports)] use vstd::std_specs::ops::*;
 verus! {
 
 /// R4 outlining of `factors.iter().product::<Uint>()` (iterator adaptor). Trusted contract: the wrapping product
@@ -9,10 +10,15 @@ fn ol_product(factors: &[Uint]) -> (r: Uint)
     factors.iter().product::<Uint>()
 }
 
-/// R4 outlining (havoc, no contract) of the trial-division block of `factor` (zip over two constant tables, logging).
-/// Whatever it does to `factors` and whatever it returns, `factor`'s postcondition must still follow.
+/// R4 outlining of the trial-division block of `factor` (zip over two constant tables, logging). Assumed contract:
+/// it pushes small primes (>= 2) whose product times the returned cofactor is n, and the cofactor is odd (2 is the
+/// first small prime) and non-zero.
 #[verifier::external_body]
 fn ol_factor_trial_division(n: Uint, prefs: &Preferences, factors: &mut Vec<Uint>) -> (nred: Uint)
+    requires uv(n) >= 1,
+    ensures
+        fi_post(old(factors)@, final(factors)@, (uv(n) / uv(nred)) as nat),
+        uv(nred) >= 1, uv(nred) % 2 == 1, uv(nred) <= uv(n), uv(n) % uv(nred) == 0,
 {
     if prefs.verbose(Verbosity::Info) {
         eprintln!("Testing small prime divisors");
@@ -63,8 +69,599 @@ fn ol_factor_pool(prefs: &Preferences) -> (tpool: Option<rayon::ThreadPool>)
 /// `pseudoprime` as seen from `check_factors`: no contract needed (any answer keeps the product claim)
 pub assume_specification [pseudoprime] (p: Uint) -> bool;
 
-/// `factor_impl` stays external and gets NO contract: any effect on `factors` is allowed (havoc).
-pub assume_specification [factor_impl] (n: Uint, alg: Algo, prefs: &Preferences, factors: &mut Vec<Uint>, tpool: Option<&rayon::ThreadPool>);
+// ---------------------------------------------------------------- factor_impl: vocabulary
+
+/// a * b == n, kept opaque in function bodies so that the solver's non-linear engine stays out of the large
+/// control-flow queries; only the lemmas below look inside
+#[verifier::opaque]
+pub open spec fn is_mul(a: nat, b: nat, n: nat) -> bool {
+    a * b == n
+}
+
+pub proof fn lemma_is_mul(a: nat, b: nat, n: nat)
+    ensures is_mul(a, b, n) == (a * b == n)
+{
+    reveal(is_mul);
+}
+
+pub open spec fn small_algo(alg: Algo) -> bool {
+    alg is Qs64 || alg is Squfof || alg is Rho
+}
+
+/// precondition of factor_impl: n odd (trial division removed 2), non-zero, and within the documented size
+/// precondition of the selector (Rho additionally below 2^64 - 64, the range rho64's contract covers)
+#[verifier::opaque]
+pub open spec fn fi_pre(n: Uint, alg: Algo) -> bool {
+    &&& uv(n) >= 1
+    &&& uv(n) % 2 == 1
+    &&& (small_algo(alg) ==> uv(n) < 0x1_0000_0000_0000_0000)
+    &&& (alg is Rho ==> uv(n) <= 0xffff_ffff_ffff_ffc0)
+}
+
+pub proof fn lemma_fi_pre_facts(n: Uint, alg: Algo)
+    ensures fi_pre(n, alg) == (uv(n) >= 1 && uv(n) % 2 == 1 && (small_algo(alg) ==> uv(n) < 0x1_0000_0000_0000_0000)
+        && (alg is Rho ==> uv(n) <= 0xffff_ffff_ffff_ffc0))
+{
+    reveal(fi_pre);
+}
+
+/// f1 extends f0 by elements >= 2 whose product is exactly n
+#[verifier::opaque]
+pub open spec fn fi_post(f0: Seq<Uint>, f1: Seq<Uint>, n: nat) -> bool {
+    &&& f0.len() <= f1.len()
+    &&& f1.take(f0.len() as int) =~= f0
+    &&& seq_prod(f1.skip(f0.len() as int)) == n
+    &&& forall|i: int| f0.len() <= i < f1.len() ==> uv(#[trigger] f1[i]) >= 2
+}
+
+pub proof fn lemma_seq_prod_concat(a: Seq<Uint>, b: Seq<Uint>)
+    ensures seq_prod(a + b) == seq_prod(a) * seq_prod(b)
+    decreases b.len()
+{
+    if b.len() == 0 {
+        assert(a + b =~= a);
+        lemma_mul_one(seq_prod(a) as int);
+    } else {
+        let b0 = b.drop_last();
+        let x = b.last();
+        assert(b =~= b0.push(x));
+        assert(a + b =~= (a + b0).push(x));
+        lemma_seq_prod_push(a + b0, x);
+        lemma_seq_prod_push(b0, x);
+        lemma_seq_prod_concat(a, b0);
+        lemma_mul_assoc(seq_prod(a) as int, seq_prod(b0) as int, uv(x) as int);
+    }
+}
+
+pub proof fn lemma_seq_prod_pos(a: Seq<Uint>)
+    requires forall|i: int| 0 <= i < a.len() ==> uv(#[trigger] a[i]) >= 1
+    ensures seq_prod(a) >= 1
+    decreases a.len()
+{
+    if a.len() > 0 {
+        let a0 = a.drop_last();
+        assert(a =~= a0.push(a.last()));
+        lemma_seq_prod_push(a0, a.last());
+        lemma_seq_prod_pos(a0);
+        lemma_mul_le2(1, seq_prod(a0) as int, 1, uv(a.last()) as int);
+    }
+}
+
+pub proof fn lemma_fi_post_refl(f0: Seq<Uint>)
+    ensures fi_post(f0, f0, 1)
+{
+    reveal(fi_post);
+    assert(f0.skip(f0.len() as int) =~= Seq::<Uint>::empty());
+}
+
+pub proof fn lemma_fi_post_push(f0: Seq<Uint>, x: Uint)
+    requires uv(x) >= 2
+    ensures fi_post(f0, f0.push(x), uv(x))
+{
+    reveal(fi_post);
+    let f1 = f0.push(x);
+    assert(f1.skip(f0.len() as int) =~= Seq::<Uint>::empty().push(x));
+    lemma_seq_prod_push(Seq::<Uint>::empty(), x);
+    lemma_mul_one(uv(x) as int);
+}
+
+pub proof fn lemma_fi_post_trans(f0: Seq<Uint>, f1: Seq<Uint>, f2: Seq<Uint>, a: nat, b: nat)
+    requires fi_post(f0, f1, a), fi_post(f1, f2, b)
+    ensures fi_post(f0, f2, a * b)
+{
+    reveal(fi_post);
+    let k0 = f0.len() as int;
+    let k1 = f1.len() as int;
+    assert(f2.take(k0) =~= f2.take(k1).take(k0));
+    assert(f2.skip(k0) =~= f1.skip(k0) + f2.skip(k1)) by {
+        assert forall|i: int| 0 <= i < f2.len() - k0 implies f2.skip(k0)[i] == (f1.skip(k0) + f2.skip(k1))[i] by {
+            if i < k1 - k0 {
+                assert(f2.take(k1)[k0 + i] == f1[k0 + i]);
+            }
+        }
+    }
+    lemma_seq_prod_concat(f1.skip(k0), f2.skip(k1));
+    assert forall|i: int| k0 <= i < f2.len() implies uv(#[trigger] f2[i]) >= 2 by {
+        if i < k1 {
+            assert(f2.take(k1)[i] == f1[i]);
+        }
+    }
+}
+
+/// product of the first i elements (opaque: keeps `take` terms out of the function body)
+#[verifier::opaque]
+pub open spec fn prefix_prod(v: Seq<Uint>, i: int) -> nat {
+    seq_prod(v.take(i))
+}
+
+/// every element of v is an admissible, strictly smaller recursive argument
+#[verifier::opaque]
+pub open spec fn list_ok(n: Uint, alg: Algo, v: Seq<Uint>, strict: bool) -> bool {
+    forall|i: int| 0 <= i < v.len() ==> #[trigger] fi_pre(v[i], alg) && 2 <= uv(v[i]) <= uv(n) && (strict ==> uv(v[i]) < uv(n))
+}
+
+pub proof fn lemma_list_ok(n: Uint, alg: Algo, v: Seq<Uint>, strict: bool, i: int)
+    requires list_ok(n, alg, v, strict), 0 <= i < v.len()
+    ensures fi_pre(v[i], alg), 2 <= uv(v[i]) <= uv(n), strict ==> uv(v[i]) < uv(n)
+{
+    reveal(list_ok);
+}
+
+pub proof fn lemma_fi_post_end(f0: Seq<Uint>, f1: Seq<Uint>, f2: Seq<Uint>, a: nat, b: nat, n: nat)
+    requires fi_post(f0, f1, a), fi_post(f1, f2, b), is_mul(a, b, n)
+    ensures fi_post(f0, f2, n)
+{
+    reveal(is_mul);
+    lemma_fi_post_trans(f0, f1, f2, a, b);
+}
+
+pub proof fn lemma_fi_post_step(f0: Seq<Uint>, f1: Seq<Uint>, f2: Seq<Uint>, v: Seq<Uint>, i: int)
+    requires 0 <= i < v.len(), fi_post(f0, f1, prefix_prod(v, i)), fi_post(f1, f2, uv(v[i]))
+    ensures fi_post(f0, f2, prefix_prod(v, i + 1))
+{
+    reveal(prefix_prod);
+    lemma_fi_post_trans(f0, f1, f2, seq_prod(v.take(i)), uv(v[i]));
+    assert(v.take(i + 1) =~= v.take(i).push(v[i]));
+    lemma_seq_prod_push(v.take(i), v[i]);
+}
+
+pub proof fn lemma_fi_post_start(f0: Seq<Uint>, v: Seq<Uint>)
+    ensures fi_post(f0, f0, prefix_prod(v, 0))
+{
+    reveal(prefix_prod);
+    assert(v.take(0) =~= Seq::<Uint>::empty());
+    lemma_fi_post_refl(f0);
+}
+
+pub proof fn lemma_fi_post_pow_step(f0: Seq<Uint>, f1: Seq<Uint>, g: Seq<Uint>, p: nat, i: nat)
+    requires
+        fi_post(f0, f1, vstd::arithmetic::power::pow(p as int, i) as nat), seq_prod(g) == p, p >= 2,
+        forall|j: int| 0 <= j < g.len() ==> uv(#[trigger] g[j]) >= 2,
+    ensures fi_post(f0, f1 + g, vstd::arithmetic::power::pow(p as int, i + 1) as nat)
+{
+    lemma_fi_post_append(f0, f1, g, vstd::arithmetic::power::pow(p as int, i) as nat);
+    vstd::arithmetic::power::lemma_pow1(p as int);
+    vstd::arithmetic::power::lemma_pow_adds(p as int, i, 1);
+    vstd::arithmetic::power::lemma_pow_positive(p as int, i);
+    vstd::arithmetic::power::lemma_pow_positive(p as int, i + 1);
+}
+
+pub proof fn lemma_fi_post_append(f0: Seq<Uint>, f1: Seq<Uint>, g: Seq<Uint>, a: nat)
+    requires fi_post(f0, f1, a), forall|i: int| 0 <= i < g.len() ==> uv(#[trigger] g[i]) >= 2
+    ensures fi_post(f0, f1 + g, a * seq_prod(g))
+{
+    reveal(fi_post);
+    let f2 = f1 + g;
+    assert(f2.take(f1.len() as int) =~= f1);
+    assert(f2.skip(f1.len() as int) =~= g);
+    assert(fi_post(f1, f2, seq_prod(g)));
+    lemma_fi_post_trans(f0, f1, f2, a, seq_prod(g));
+}
+
+pub proof fn lemma_fi_post_from_empty(f: Seq<Uint>, n: nat)
+    requires fi_post(Seq::<Uint>::empty(), f, n)
+    ensures seq_prod(f) == n, forall|i: int| 0 <= i < f.len() ==> uv(#[trigger] f[i]) >= 2
+{
+    reveal(fi_post);
+    assert(f.skip(0) =~= f);
+}
+
+pub proof fn lemma_fi_post_one(f0: Seq<Uint>, f1: Seq<Uint>)
+    requires fi_post(f0, f1, 1)
+    ensures f1 == f0
+{
+    reveal(fi_post);
+    let t = f1.skip(f0.len() as int);
+    if t.len() > 0 {
+        assert forall|i: int| 0 <= i < t.len() implies uv(#[trigger] t[i]) >= 2 by {
+            assert(t[i] == f1[f0.len() + i]);
+        }
+        lemma_seq_prod_ge2(t);
+    }
+    assert(f1 =~= f1.take(f0.len() as int));
+}
+
+/// a rearrangement keeps the lower bound of the elements
+pub proof fn lemma_perm_ge2(s1: Seq<Uint>, s2: Seq<Uint>)
+    requires permutation_of(s1, s2), forall|i: int| 0 <= i < s1.len() ==> uv(#[trigger] s1[i]) >= 2
+    ensures forall|i: int| 0 <= i < s2.len() ==> uv(#[trigger] s2[i]) >= 2
+{
+    s1.to_multiset_ensures();
+    s2.to_multiset_ensures();
+    assert forall|i: int| 0 <= i < s2.len() implies uv(#[trigger] s2[i]) >= 2 by {
+        assert(s2.contains(s2[i]));
+        assert(s2.to_multiset().count(s2[i]) > 0);
+        assert(s1.to_multiset().count(s2[i]) > 0);
+        assert(s1.contains(s2[i]));
+        let j = choose|j: int| 0 <= j < s1.len() && s1[j] == s2[i];
+        assert(uv(s1[j]) >= 2);
+    }
+}
+
+/// the two phases of factor(): trial division (product n / nred) then factor_impl (product nred)
+pub proof fn lemma_factor_compose(f1: Seq<Uint>, f2: Seq<Uint>, n: nat, nred: nat)
+    requires fi_post(Seq::<Uint>::empty(), f1, n / nred), fi_post(f1, f2, nred), nred >= 1, n % nred == 0
+    ensures seq_prod(f2) == n, forall|i: int| 0 <= i < f2.len() ==> uv(#[trigger] f2[i]) >= 2, n == 1 ==> f2.len() == 0
+{
+    vstd::arithmetic::div_mod::lemma_fundamental_div_mod(n as int, nred as int);
+    lemma_mul_comm(nred as int, (n / nred) as int);
+    lemma_fi_post_trans(Seq::<Uint>::empty(), f1, f2, n / nred, nred);
+    lemma_fi_post_from_empty(f2, n);
+    if n == 1 && f2.len() > 0 {
+        lemma_seq_prod_ge2(f2);
+    }
+}
+
+/// a * x == n with n odd: a is odd, a <= n, and a < n when x >= 2
+pub proof fn lemma_odd_divisor(a: nat, x: nat, n: nat)
+    requires a * x == n, n % 2 == 1
+    ensures a % 2 == 1, a >= 1, x >= 1, a <= n, x >= 2 ==> a < n
+{
+    if a % 2 == 0 {
+        let h = a / 2;
+        assert(a == 2 * h);
+        lemma_mul_assoc(2, h as int, x as int);
+        vstd::arithmetic::div_mod::lemma_mod_multiples_basic((h * x) as int, 2);
+        lemma_mul_comm(2, (h * x) as int);
+    }
+    if x == 0 {
+        lemma_mul_comm(a as int, 0);
+    }
+    if a == 0 {}
+    lemma_mul_le2(a as int, a as int, 1, x as int);
+    lemma_mul_one(a as int);
+    if x >= 2 {
+        lemma_mul_le2(a as int, a as int, 2, x as int);
+    }
+}
+
+pub proof fn lemma_fi_pre_div(n: Uint, alg: Algo, a: Uint, x: nat)
+    requires fi_pre(n, alg), uv(a) * x == uv(n)
+    ensures fi_pre(a, alg), uv(a) <= uv(n), x >= 2 ==> uv(a) < uv(n)
+{
+    reveal(fi_pre);
+    lemma_odd_divisor(uv(a), x, uv(n));
+}
+
+pub proof fn lemma_fi_split_pair(n: Uint, alg: Algo, a: Uint, b: Uint)
+    requires fi_pre(n, alg), is_mul(uv(a), uv(b), uv(n)), uv(a) >= 2, uv(b) >= 2
+    ensures fi_pre(a, alg), fi_pre(b, alg), uv(a) < uv(n), uv(b) < uv(n)
+{
+    reveal(is_mul);
+    lemma_fi_pre_div(n, alg, a, uv(b));
+    lemma_mul_comm(uv(a) as int, uv(b) as int);
+    lemma_fi_pre_div(n, alg, b, uv(a));
+}
+
+pub proof fn lemma_fi_split_u64(n: Uint, alg: Algo, a: u64, b: u64)
+    requires fi_pre(n, alg), is_mul(a as nat, b as nat, uv(n)), a >= 2, b >= 2
+    ensures
+        forall|x: Uint| #![trigger fi_pre(x, alg)] #![trigger uv(x)] uv(x) == a as nat ==> fi_pre(x, alg) && uv(x) < uv(n),
+        forall|x: Uint| #![trigger fi_pre(x, alg)] #![trigger uv(x)] uv(x) == b as nat ==> fi_pre(x, alg) && uv(x) < uv(n),
+{
+    reveal(is_mul);
+    assert forall|x: Uint| #![trigger fi_pre(x, alg)] #![trigger uv(x)] uv(x) == a as nat implies fi_pre(x, alg) && uv(x) < uv(n) by {
+        lemma_fi_pre_div(n, alg, x, b as nat);
+    }
+    assert forall|x: Uint| #![trigger fi_pre(x, alg)] #![trigger uv(x)] uv(x) == b as nat implies fi_pre(x, alg) && uv(x) < uv(n) by {
+        lemma_mul_comm(a as int, b as int);
+        lemma_fi_pre_div(n, alg, x, a as nat);
+    }
+}
+
+/// d | n, 1 < d < n: both d and n / d are admissible recursive arguments
+pub proof fn lemma_fi_split_div(n: Uint, alg: Algo, d: u64)
+    requires fi_pre(n, alg), uv(n) % (d as nat) == 0, 1 < d, (d as nat) < uv(n)
+    ensures
+        forall|x: Uint| #![trigger fi_pre(x, alg)] #![trigger uv(x)] uv(x) == d as nat ==> fi_pre(x, alg) && uv(x) < uv(n),
+        forall|x: Uint| #![trigger fi_pre(x, alg)] #![trigger uv(x)] uv(x) == uv(n) / (d as nat) ==> fi_pre(x, alg) && uv(x) < uv(n),
+        is_mul(d as nat, uv(n) / (d as nat), uv(n)),
+{
+    reveal(is_mul);
+    let q = uv(n) / (d as nat);
+    vstd::arithmetic::div_mod::lemma_fundamental_div_mod(uv(n) as int, d as int);
+    assert((d as nat) * q == uv(n));
+    if q < 2 {
+        if q == 0 { lemma_mul_comm(d as int, 0); } else { lemma_mul_one(d as int); }
+    }
+    assert forall|x: Uint| #![trigger fi_pre(x, alg)] #![trigger uv(x)] uv(x) == d as nat implies fi_pre(x, alg) && uv(x) < uv(n) by {
+        lemma_fi_pre_div(n, alg, x, q);
+    }
+    assert forall|x: Uint| #![trigger fi_pre(x, alg)] #![trigger uv(x)] uv(x) == q implies fi_pre(x, alg) && uv(x) < uv(n) by {
+        lemma_mul_comm(d as int, q as int);
+        lemma_fi_pre_div(n, alg, x, d as nat);
+    }
+}
+
+pub proof fn lemma_seq_prod_single(v: Seq<Uint>)
+    requires v.len() == 1
+    ensures seq_prod(v) == uv(v[0])
+{
+    assert(v =~= Seq::<Uint>::empty().push(v[0]));
+    lemma_seq_prod_push(Seq::<Uint>::empty(), v[0]);
+    lemma_mul_one(uv(v[0]) as int);
+}
+
+/// rho's contract (one-element list, explicit product) in the vocabulary of proper_list
+pub proof fn lemma_rho_shape(n: Uint, v: Seq<Uint>, q: Uint)
+    requires v.len() == 1, uv(v[0]) * uv(q) == uv(n), 1 < uv(v[0]), 1 < uv(q)
+    ensures proper_list_v(n, v, q)
+{
+    reveal(is_mul);
+    reveal(proper_list_v);
+    lemma_seq_prod_single(v);
+}
+
+pub proof fn lemma_seq_prod_ge2(a: Seq<Uint>)
+    requires a.len() >= 1, forall|i: int| 0 <= i < a.len() ==> uv(#[trigger] a[i]) >= 2
+    ensures seq_prod(a) >= 2
+{
+    lemma_seq_prod_remove(a, 0);
+    assert forall|i: int| 0 <= i < a.remove(0).len() implies uv(#[trigger] a.remove(0)[i]) >= 1 by {
+        assert(a.remove(0)[i] == a[i + 1]);
+    }
+    lemma_seq_prod_pos(a.remove(0));
+    lemma_mul_le2(2, uv(a[0]) as int, 1, seq_prod(a.remove(0)) as int);
+}
+
+/// the (list, cofactor) shape returned by rho / P-1: every list element and the cofactor are admissible
+pub proof fn lemma_fi_split_list(n: Uint, alg: Algo, v: Seq<Uint>, b: Uint)
+    requires
+        fi_pre(n, alg), proper_list_v(n, v, b),
+    ensures
+        list_ok(n, alg, v, true),
+        fi_pre(b, alg), uv(b) < uv(n),
+        is_mul(prefix_prod(v, v.len() as int), uv(b), uv(n)),
+{
+    reveal(proper_list_v);
+    reveal(list_ok);
+    reveal(prefix_prod);
+    lemma_fi_pre_facts(n, alg);
+    assert(v.take(v.len() as int) =~= v);
+    reveal(is_mul);
+    lemma_seq_prod_ge2(v);
+    lemma_mul_comm(seq_prod(v) as int, uv(b) as int);
+    lemma_fi_pre_div(n, alg, b, seq_prod(v));
+    lemma_fi_pre_facts(b, alg);
+    assert forall|i: int| 0 <= i < v.len() implies #[trigger] fi_pre(v[i], alg) && 2 <= uv(v[i]) <= uv(n) && uv(v[i]) < uv(n) by {
+        lemma_seq_prod_remove(v, i);
+        let w = v.remove(i);
+        assert forall|j: int| 0 <= j < w.len() implies uv(#[trigger] w[j]) >= 2 by {
+            if j < i { assert(w[j] == v[j]); } else { assert(w[j] == v[j + 1]); }
+        }
+        lemma_seq_prod_pos(w);
+        let rest = seq_prod(w) * uv(b);
+        lemma_mul_assoc(uv(v[i]) as int, seq_prod(w) as int, uv(b) as int);
+        if uv(b) >= 2 {
+            lemma_mul_le2(1, seq_prod(w) as int, 2, uv(b) as int);
+        } else {
+            lemma_seq_prod_ge2(w);
+            lemma_mul_le2(2, seq_prod(w) as int, 1, uv(b) as int);
+        }
+        lemma_fi_pre_div(n, alg, v[i], rest);
+    }
+}
+
+/// what ol_combine_divisors returns: a list whose product is n with elements >= 2
+#[verifier::opaque]
+pub open spec fn combined_ok(n: Uint, v: Seq<Uint>) -> bool {
+    seq_prod(v) == uv(n) && forall|i: int| 0 <= i < v.len() ==> uv(#[trigger] v[i]) >= 2
+}
+
+pub proof fn lemma_fi_split_seq(n: Uint, alg: Algo, v: Seq<Uint>)
+    requires
+        fi_pre(n, alg), combined_ok(n, v),
+    ensures
+        list_ok(n, alg, v, false), prefix_prod(v, v.len() as int) == uv(n),
+{
+    reveal(combined_ok);
+    reveal(list_ok);
+    reveal(prefix_prod);
+    assert(v.take(v.len() as int) =~= v);
+    assert forall|i: int| 0 <= i < v.len() implies #[trigger] fi_pre(v[i], alg) && uv(v[i]) >= 2 && uv(v[i]) <= uv(n) by {
+        lemma_seq_prod_remove(v, i);
+        lemma_fi_pre_div(n, alg, v[i], seq_prod(v.remove(i)));
+    }
+}
+
+/// p^k == n, k >= 2, p >= 2: p is an admissible recursive argument
+pub proof fn lemma_pow_root(p: nat, k: nat, n: nat)
+    requires vstd::arithmetic::power::pow(p as int, k) == n as int, k >= 2, p >= 2
+    ensures p * (vstd::arithmetic::power::pow(p as int, (k - 1) as nat) as nat) == n, vstd::arithmetic::power::pow(p as int, (k - 1) as nat) >= 2
+{
+    vstd::arithmetic::power::lemma_pow_adds(p as int, 1, (k - 1) as nat);
+    vstd::arithmetic::power::lemma_pow1(p as int);
+    vstd::arithmetic::power::lemma_pow_positive(p as int, (k - 1) as nat);
+    vstd::arithmetic::power::lemma_pow_adds(p as int, 1, (k - 2) as nat);
+    vstd::arithmetic::power::lemma_pow_positive(p as int, (k - 2) as nat);
+    lemma_mul_le2(2, p as int, 1, vstd::arithmetic::power::pow(p as int, (k - 2) as nat));
+}
+
+pub proof fn lemma_fi_pre_root(n: Uint, alg: Algo, p: Uint, k: nat)
+    requires fi_pre(n, alg), vstd::arithmetic::power::pow(uv(p) as int, k) == uv(n) as int, k >= 2, uv(p) >= 2
+    ensures fi_pre(p, alg), uv(p) < uv(n)
+{
+    lemma_pow_root(uv(p), k, uv(n));
+    lemma_fi_pre_div(n, alg, p, vstd::arithmetic::power::pow(uv(p) as int, (k - 1) as nat) as nat);
+}
+
+pub proof fn lemma_bits_lt52(n: Uint)
+    requires bitlen(uv(n)) < 52
+    ensures uv(n) < 0x10_0000_0000_0000
+{
+    lemma_bitlen_bound(uv(n), 51);
+    vstd::arithmetic::power2::lemma2_to64_rest();
+}
+
+pub proof fn lemma_small_bits(n: Uint)
+    requires uv(n) < 0x1_0000_0000_0000_0000
+    ensures bitlen(uv(n)) <= 64
+{
+    vstd::arithmetic::power2::lemma2_to64();
+    lemma_bitlen_le(uv(n), 64);
+}
+
+pub proof fn lemma_fi_div_u64(n: Uint, d: u64)
+    requires d >= 1
+    ensures
+        forall|x: Uint| uv(x) == d as nat ==> #[trigger] n.div_req(x),
+        forall|x: Uint| uv(x) == d as nat ==> uv(#[trigger] n.div_spec(x)) == uv(n) / (d as nat),
+        <Uint as vstd::std_specs::ops::DivSpec<Uint>>::obeys_div_spec(),
+{
+    assert forall|x: Uint| uv(x) == d as nat implies #[trigger] n.div_req(x) by {
+        axiom_buint_div(n, x);
+    }
+    assert forall|x: Uint| uv(x) == d as nat implies uv(#[trigger] n.div_spec(x)) == uv(n) / (d as nat) by {
+        axiom_buint_div(n, x);
+    }
+    axiom_buint_div(n, n);
+}
+
+pub proof fn lemma_bits_le64(n: Uint)
+    requires bitlen(uv(n)) <= 64
+    ensures uv(n) < 0x1_0000_0000_0000_0000, uv(n) % W() == uv(n)
+{
+    lemma_bitlen_bound(uv(n), 64);
+    vstd::arithmetic::power2::lemma2_to64();
+    vstd::arithmetic::div_mod::lemma_small_mod(uv(n), W());
+}
+
+// ---------------------------------------------------------------- factor_impl: assumed contracts of the algorithms it dispatches to
+
+/// trusted (C16 / C01 leaf claims, not proved here): a returned pair is a proper factorization
+pub open spec fn proper_pair(n: Uint, r: Option<(Uint, Uint)>) -> bool {
+    r matches Some((a, b)) ==> is_mul(uv(a), uv(b), uv(n)) && uv(a) >= 2 && uv(b) >= 2
+}
+
+pub open spec fn proper_pair64(n: u64, r: Option<(u64, u64)>) -> bool {
+    r matches Some((a, b)) ==> is_mul(a as nat, b as nat, n as nat) && a >= 2 && b >= 2
+}
+
+#[verifier::opaque]
+pub open spec fn proper_list_v(n: Uint, v: Seq<Uint>, b: Uint) -> bool {
+    is_mul(seq_prod(v), uv(b), uv(n)) && v.len() >= 1
+        && (forall|i: int| 0 <= i < v.len() ==> uv(#[trigger] v[i]) >= 2)
+        && (uv(b) >= 2 || v.len() >= 2)
+}
+
+pub open spec fn proper_list(n: Uint, r: Option<(Vec<Uint>, Uint)>) -> bool {
+    r matches Some((v, b)) ==> proper_list_v(n, v@, b)
+}
+
+pub assume_specification [pollard_pm1::pm1_quick] (n: &Uint, v: Verbosity) -> (r: Option<(Vec<Uint>, Uint)>)
+    ensures proper_list(*n, r);
+pub assume_specification [pollard_pm1::pm1_only] (n: &Uint, v: Verbosity) -> (r: Option<(Vec<Uint>, Uint)>)
+    ensures proper_list(*n, r);
+pub assume_specification [ecm128::ecm128] (n: Uint, try_harder: bool, prefs: &Preferences) -> (r: Option<(Uint, Uint)>)
+    ensures proper_pair(n, r);
+pub assume_specification [ecm::ecm_auto] (n: Uint, prefs: &Preferences, tpool: Option<&rayon::ThreadPool>) -> (r: Option<(Uint, Uint)>)
+    ensures proper_pair(n, r);
+pub assume_specification [ecm::ecm_only] (n: Uint, prefs: &Preferences, tpool: Option<&rayon::ThreadPool>) -> (r: Option<(Uint, Uint)>)
+    ensures proper_pair(n, r);
+pub assume_specification [qsieve64::qsieve] (n: u64, v: Verbosity) -> (r: Option<(u64, u64)>)
+    ensures proper_pair64(n, r);
+pub assume_specification [squfof::squfof] (n: u64) -> (r: Option<(u64, u64)>)
+    ensures proper_pair64(n, r);
+pub assume_specification [fbase::select_multiplier] (n: Uint) -> (u32, f64);
+/// the sieves return divisors of n; what factor_impl needs from them is only used inside ol_combine_divisors
+pub assume_specification [qsieve::qsieve] (n: Uint, k: u32, prefs: &Preferences, tpool: Option<&rayon::ThreadPool>) -> Vec<Uint>;
+pub assume_specification [mpqs::mpqs] (n: Uint, k: u32, prefs: &Preferences, tpool: Option<&rayon::ThreadPool>) -> Vec<Uint>;
+pub assume_specification [siqs::siqs] (n: &Uint, k: u32, prefs: &Preferences, tpool: Option<&rayon::ThreadPool>) -> (r: Result<Vec<Uint>, UnexpectedFactor>)
+    ensures r matches Err(e) ==> uv(*n) % (uf_val(e) as nat) == 0 && 1 < uf_val(e) && (uf_val(e) as nat) < uv(*n);
+pub closed spec fn uf_val(e: UnexpectedFactor) -> u64 { e.0 }
+pub assume_specification [Preferences::abort] (p: &Preferences) -> bool;
+
+
+/// `arith::perfect_power` (generic over foreign numeric traits: outside Verus) on a word; the conversion closure
+/// `.map(|_pk @ (p, k)| (p.into(), k))` is part of the outlined expression
+#[verifier::external_body]
+fn ol_perfect_power_u64(n: u64) -> (r: Option<(Uint, u32)>)
+    ensures r matches Some((p, k)) ==> vstd::arithmetic::power::pow(uv(p) as int, k as nat) == n as int && k >= 2 && uv(p) >= 2
+{
+    arith::perfect_power(n).map(|_pk @ (p, k)| (p.into(), k))
+}
+
+#[verifier::external_body]
+fn ol_perfect_power_uint(n: Uint) -> (r: Option<(Uint, u32)>)
+    ensures r matches Some((p, k)) ==> vstd::arithmetic::power::pow(uv(p) as int, k as nat) == uv(n) as int && k >= 2 && uv(p) >= 2
+{
+    arith::perfect_power(n)
+}
+
+#[verifier::external_body]
+fn ol_pm1_done(prefs: &Preferences) -> bool {
+    prefs.pm1_done.load(Ordering::Relaxed)
+}
+
+#[verifier::external_body]
+fn ol_pm1_set(prefs: &Preferences) {
+    prefs.pm1_done.store(true, Ordering::Relaxed);
+}
+
+#[verifier::external_body]
+fn ol_verbosity(prefs: &Preferences) -> Verbosity {
+    prefs.verbosity
+}
+
+/// R4 outlining of the gcd recombination of the sieve's divisors (`Vec::retain` with a closure that captures two
+/// locals mutably: outside the Verus subset). Assumed contract (trusted, mechanism 3 of C01 is NOT proved): the
+/// refinement of [n] by divisors of n keeps the product and never produces 0 or 1. The run-time assertion
+/// `residue.is_one()` inside is the original code's own guard against a non-divisor.
+#[verifier::external_body]
+fn ol_combine_divisors(n: Uint, divs: Vec<Uint>) -> (facs: Vec<Uint>)
+    requires uv(n) >= 2
+    ensures combined_ok(n, facs@)
+{
+    let mut facs = vec![n];
+    for d in divs {
+        // is it combined with existing divisors?
+        let mut residue = d;
+        let mut splits = vec![];
+        facs.retain(|&f| {
+            let gcd: Uint = Integer::gcd(&f, &residue);
+            let split = gcd != f && !gcd.is_one();
+            if split {
+                splits.push(f)
+            }
+            residue /= gcd;
+            !split
+        });
+        assert!(residue.is_one());
+        let mut residue = d;
+        for f in splits {
+            let gcd: Uint = Integer::gcd(&f, &residue);
+            if gcd != f && !gcd.is_one() {
+                facs.push(f / gcd);
+                facs.push(gcd);
+            } else {
+                // Can this happen?
+                facs.push(f);
+            }
+            residue /= gcd;
+        }
+    }
+    facs
+}
 
 #[verifier::external_type_specification]
 #[verifier::external_body]
